@@ -11,11 +11,13 @@ import (
 	"hash/fnv"
 	"os"
 	"path/filepath"
+	"strconv"
 	"strings"
 	"sync"
 
 	"github.com/containerd/containerd/v2/core/content"
 	"github.com/containerd/containerd/v2/plugins/content/local"
+	"github.com/containerd/stargz-snapshotter/estargz"
 	"github.com/klauspost/compress/zstd"
 	digest "github.com/opencontainers/go-digest"
 	ocispec "github.com/opencontainers/image-spec/specs-go/v1"
@@ -141,6 +143,7 @@ type srcLayer struct {
 	Annotations map[string]string
 	DiffID      string // sha256 of the decompressed source
 	MarkerSizes [nMarkers]int64
+	MarkerIDs   [nMarkers]uint64 // content ids of the marker files (gen.CheckContent)
 }
 
 func gzipBytes(b []byte, level int) []byte {
@@ -179,8 +182,8 @@ func layerMediaType(docker bool, comp string) string {
 
 // buildSrcLayer produces the source blob of one layer spec.
 func buildSrcLayer(c caseSpec, l layerSpec) (*srcLayer, error) {
-	tarBytes, ms := layerTar(l.TarSeed)
-	s := &srcLayer{MarkerSizes: ms}
+	tarBytes, ms, ids := layerTar(l.TarSeed)
+	s := &srcLayer{MarkerSizes: ms, MarkerIDs: ids}
 	comp := "gzip"
 	switch l.Src {
 	case "tar":
@@ -197,13 +200,15 @@ func buildSrcLayer(c caseSpec, l layerSpec) (*srcLayer, error) {
 			o.Compression = "zstdchunked"
 			comp = "zstd"
 		}
-		b, err := blob.Build(tarBytes, o)
+		b, err := blob.Build(tarBytes, o, estargz.WithMinChunkSize(20000)) // few gzip members: cheap to produce
 		if err != nil {
 			return nil, fmt.Errorf("building an already-converted input: %w", err)
 		}
 		s.Blob = b.Blob
 		if !c.Docker {
-			s.Annotations = map[string]string{annTOCDigest: b.TOCDigest.String(), annUncompressedSize: "1"}
+			// the annotations of the OLD blob, as a converted image carries them
+			ul, _, _ := decompressAll(b.Blob)
+			s.Annotations = map[string]string{annTOCDigest: b.TOCDigest.String(), annUncompressedSize: strconv.FormatInt(ul, 10)}
 		}
 	default:
 		return nil, fmt.Errorf("unknown src %q", l.Src)
